@@ -37,6 +37,7 @@ def finite_guarded(fn, ev):
 def run(ctx, sess):
     ctx.explanation = EXPL
     ctx.not_decided = NOT_DECIDED
+    ctx.rule('C09.10', 'distances between sample ids are narrowed only when bounded: every conversion of a 64-bit difference of two ids to 32 bits in the block writer is preceded on every path by a 64-bit compare that relates the same two ids to a third quantity (the length), so a distance of 2^32 or more is never mistaken for a small one')
     ctx.rule('C09.8', 'an all-gap piece is absent, not NaN: combining with an empty accumulator copies the other operand / resets the target (shared with C20.2)')
     from .common import relay
     from . import c20 as _src_c20
@@ -445,6 +446,7 @@ def run(ctx, sess):
     ctx.floor('scratch subscripts', n5, 3)
     realign_reads_rule(ctx, P, f, fd, psz, dts)
     level0_stats_rule(ctx, P)
+    narrowing_rule(ctx, P)
 
 
 def single_packer(ctx, P):
@@ -636,3 +638,42 @@ def level0_stats_rule(ctx, P):
         ctx.ob('C09.4', ok, g.name, 'level-0 accumulation %s' % show(ev.e)[:40], ev.where(),
                'under an isfinite test' if ok else 'a NaN gap sample enters this accumulation: a window that holds gap samples and written samples returns NaN')
     ctx.floor('level-0 accumulating statements', n, 3)
+
+
+
+def narrowing_rule(ctx, P):
+    n = 0
+    for fn in P.fns_in('src/wr_fsr.c'):
+        casts = []
+        for ev in fn.events():
+            for nd in walk(ev.e or {}):
+                if nd.get('op') == 'cast' and nd.get('t') in ('u32', 'i32', 'u16', 'u8'):
+                    inner = nd['k'][0]
+                    while inner.get('op') == 'cast' and inner.get('t') in ('i64', 'u64'):
+                        inner = inner['k'][0]
+                    i0 = inner
+                    if i0.get('op') == 'paren':
+                        i0 = i0['k'][0]
+                    if i0.get('op') == 'bin' and i0['o'] == '-' and i0.get('t') in ('i64', 'u64'):
+                        a, b = strip_casts(i0['k'][0]), strip_casts(i0['k'][1])
+                        if a.get('op') == 'ref' and b.get('op') == 'ref' and a.get('t') in ('i64', 'u64') and b.get('t') in ('i64', 'u64'):
+                            casts.append((ev, nd, a['name'], b['name']))
+        for ev, nd, a, b in casts:
+            n += 1
+            ctx.saw(fn, 1)
+            guards = set()
+            for bb in fn.blocks.values():
+                c = strip_casts(bb.cond) if bb.cond is not None else None
+                if c is None or c.get('op') != 'bin' or c['o'] not in ('<', '<=', '>', '>='):
+                    continue
+                names = {m.get('name') for m in walk(c) if m.get('op') == 'ref' and m.get('rk') != 'enum'}
+                narrowed = any(m.get('op') == 'cast' and m.get('t') in ('u32', 'i32') and strip_casts(m['k'][0]).get('t') in ('i64', 'u64') for m in walk(c))
+                if a in names and b in names and len(names) >= 3 and not narrowed:
+                    guards.add(bb.id)
+            w = find_path(fn, 'entry', lambda e2, facts: 'target' if e2 is ev else None, refine=False,
+                          edge_ok=lambda b_, s_, lab: b_.id not in guards)
+            ctx.ob('C09.10', w is None, fn.name, 'narrowing of %s - %s' % (a, b), ev.where(),
+                   'a 64-bit compare of %s, %s and the length lies on every path to the conversion' % (a, b) if w is None else
+                   'the distance %s - %s is cut to 32 bits before anything bounds it: a write that lies 2^32 + k samples behind the next expected id is treated as lying k samples behind (its tail is appended, the following block loses its first samples)' % (a, b),
+                   w.render() if w else None)
+    ctx.floor('narrowed id distances in the block writer', n, 1)
